@@ -402,3 +402,80 @@ Proof.
   apply IH. replace s1 with (fst (tstep c s i)) by (rewrite TS; reflexivity).
   apply r_step; assumption.
 Qed.
+
+(* ---------- termination: every step consumes potential, so every schedule ends after at most `weight (init c)` steps ---------- *)
+Definition w (i : instr) : nat :=
+  match i with
+  | IPriv _ | IPark | IXWait | ICvWalk => 1
+  | ICvResolve => 2 | ICvSet _ _ => 3 | ICvReady _ => 4 | ICvClaim => 5
+  | IWalk => 7 | ISub _ => 8 | IReady => 9 | IResolve => 8 | IClaim | IDtorP => 9
+  | IOSub _ => 2 | IOReady => 3
+  end.
+Fixpoint wl (l : list instr) : nat := match l with [] => 0 | x :: t => w x + wl t end.
+Definition weight (s : st) : nat := wl (th0 s) + wl (th1 s).
+
+Lemma weight_step c s i : Inv c s -> enabled s i = true -> weight (fst (tstep c s i)) < weight s.
+Proof.
+  intros I E. unfold tstep, enabled, weight in *.
+  destruct I as [I1 I2 I3 I4 I5 I6 I7 I8 I9 I10 I11 I12 I13 I14 I15 I16 I17 I18 I19 I20 I21].
+  unfold N in *.
+  assert (CV : cv c <= 1) by (unfold cv, b2n; destruct (is_conv c); lia).
+  assert (CVN : cv c * nfire s <= 1).
+  { assert (nfire s <= 1) by (destruct (slot s); cbn [rdy] in I6; lia). unfold cv, b2n; destruct (is_conv c); lia. }
+  destruct i as [|[|i]]; cbn [thr] in *; [| |discriminate].
+  all: dth s.
+  all: destruct ins; unfold exec, fire, deliver.
+  all: red1; dflags s; red1.
+  all: try (dpay s).
+  all: try match goal with g : bool |- _ => destruct g end.
+  all: red1; cbn [wl w app].
+  all: redch.
+  all: try lia.
+Qed.
+
+Lemma wl_pos l : l <> [] -> wl l >= 1.
+Proof. destruct l as [|x t]; [congruence|]. intros _. cbn [wl]. destruct x; cbn [w]; lia. Qed.
+
+Lemma weight_zero_terminal s : weight s = 0 -> terminal s.
+Proof.
+  unfold weight, terminal, all_enabled, enabled. cbn [thr]. intros H.
+  destruct (th0 s) as [|a l0]; [|pose proof (wl_pos (a :: l0) ltac:(discriminate)); lia].
+  destruct (th1 s) as [|b l1]; [reflexivity|].
+  pose proof (wl_pos (b :: l1) ltac:(discriminate)) as P. change (wl []) with 0 in H. lia.
+Qed.
+
+Theorem run_terminates c fuel : forall s sched tr,
+  valid c = true -> reachable c s -> weight s <= fuel -> terminal (fst (run_sched c fuel s sched tr)).
+Proof.
+  induction fuel as [|f IH]; intros s sched tr V R W; cbn [run_sched].
+  - cbn [fst]. apply weight_zero_terminal. lia.
+  - destruct (all_enabled s) as [|e en] eqn:EN; [exact EN|].
+    set (k := match sched with [] => 0%Z | x :: _ => Z.abs x end).
+    set (i := nth (Z.to_nat (k mod zlen (e :: en))) (e :: en) 0).
+    assert (E : enabled s i = true).
+    { apply in_all_enabled. rewrite EN. apply nth_In.
+      assert (0 <= k)%Z by (unfold k; destruct sched; lia).
+      unfold zlen. cbn [length].
+      pose proof (Z.mod_pos_bound k (Z.of_nat (S (length en))) ltac:(lia)). lia. }
+    pose proof (weight_step c s i (inv_reachable c s V R) E) as WS.
+    destruct (tstep c s i) as [s1 p] eqn:TS. cbn [fst] in WS.
+    apply IH; [exact V| |lia].
+    replace s1 with (fst (tstep c s i)) by (rewrite TS; reflexivity).
+    apply r_step; assumption.
+Qed.
+
+Lemma weight_init c : valid c = true -> weight (init c) <= 60.
+Proof.
+  destruct c as [ad mode stor k ct cd]. unfold valid. cbn [c_mode c_stor c_ad is_mk].
+  intros V.
+  destruct mode as [|[|[|[|m]]]]; try (cbn in V; rewrite ?andb_false_r in V; discriminate);
+  destruct ad; try (cbn in V; rewrite ?andb_false_r in V; discriminate);
+  destruct k; cbn; lia.
+Qed.
+
+(* every schedule of every valid configuration ends, within 60 steps, in a terminal state *)
+Theorem every_schedule_terminates c sched fuel : valid c = true -> 60 <= fuel ->
+  terminal (fst (run_sched c fuel (init c) sched [])).
+Proof.
+  intros V F. apply run_terminates; [exact V|apply r_init|]. pose proof (weight_init c V). lia.
+Qed.
